@@ -30,7 +30,8 @@ WATCHDOG = {"quick": 900, "thorough": 5 * 3600}
 
 def plan(tier, seed):
     n = 1 if tier == "quick" else 12
-    specs = [{"mode": "strace", "scen": i % len(SCENARIOS), "n": n, "rseed": seed * 1000 + i} for i in range(12)]
+    # quick: 12 shards x 2 scenarios cover all 23 scenarios; thorough repeats them with other PELs
+    specs = [{"mode": "strace", "scen": i, "n": 2 * n, "rseed": seed * 1000 + i} for i in range(12)]
     m = 90 if tier == "quick" else 1500
     specs += [{"mode": "twin", "n": m, "rseed": seed * 1000 + 100 + i} for i in range(4)]
     return specs
@@ -47,7 +48,9 @@ SCENARIOS = [("json", "small", None), ("json-o", "small", None), ("file", "small
              ("file", "small", "devfull"), ("file", "small", "closed"), ("json", "big", None), ("file", "big", "file"),
              ("json", "undecodable", None), ("file", "undecodable", "file"), ("json-o", "filtered", None),
              ("file", "filtered", "pipe"), ("file", "badph", "file"), ("json", "badph", None), ("file", "big", "pipe"),
-             ("json-o", "big", None)]
+             ("json-o", "big", None), ("filehex", "small", "devfull"), ("filehex", "small", "file"), ("filehex", "small", "closed"),
+             ("filehex", "small", "pipe"), ("filehex", "big", "devfull"), ("filehex", "filtered", "file"),
+             ("filehex", "undecodable", "pipe")]
 
 
 def make_pel(rng, u, variant):
@@ -95,7 +98,7 @@ class Scen:
         with open(self.P, "wb") as f:
             f.write(self.data)
         self.inputs = {self.P: (self.data, self.expect, self.pel)}
-        if self.mode != "file":
+        if not self.mode.startswith("file"):
             self.Q = os.path.join(self.dir, self.name2)
             with open(self.Q, "wb") as f:
                 f.write(self.data2)
@@ -106,6 +109,8 @@ class Scen:
     def argv(self):
         if self.mode == "file":
             return ["-f", self.P, "-c"]
+        if self.mode == "filehex":
+            return ["-f", self.P, "-x", "-c"]
         a = ["-p", self.dir, "-j", "-c"]
         if self.mode == "json-o":
             a += ["-o", self.out]
@@ -125,7 +130,7 @@ class Scen:
 
     def open_stdout(self):
         """returns (stdout argument for subprocess, cleanup callable)"""
-        if self.mode != "file" or self.sk == "pipe":
+        if not self.mode.startswith("file") or self.sk == "pipe":
             return subprocess.PIPE, lambda: None
         if self.sk == "file":
             f = open(self.stdout_file, "wb")
@@ -138,9 +143,15 @@ class Scen:
         return w, lambda: os.close(w)
 
 
-def complete(content: bytes, pel, newline=False):
+def complete(content: bytes, pel, newline=False, hexdata=None):
     """the decoded document of `pel`, emitted completely (content may legitimately differ in detail when an
     injected fault hit an unrelated file such as the message registry)"""
+    if hexdata is not None:
+        from vf import cliparse
+        try:
+            return cliparse.parse_hex(content.decode()) == [hexdata]
+        except Exception:
+            return False
     try:
         txt = content.decode()
         if newline:
@@ -168,7 +179,7 @@ def check_run(ctx, sc, events, killed, proc, inject):
             if exp is None:
                 ctx.violation("C12/removed-although-not-decoded", "%s: unlink(%s) although the PEL is %s (inject=%s)" %
                               (label, os.path.basename(P), sc.pelv, inject), trace=[repr(e) for e in events[-14:]])
-            elif sc.mode == "file":
+            elif sc.mode.startswith("file"):
                 w = [e for e in before if e.name in ("write", "writev") and e.fd == 1]
                 bad = [e for e in w if e.ret is None or e.ret < 0]
                 total = sum(e.ret for e in w if e.ret and e.ret > 0)
@@ -215,15 +226,16 @@ def check_run(ctx, sc, events, killed, proc, inject):
                 ctx.violation("C12/removed-although-not-decoded", "%s: %s (%s) is gone after the run (inject=%s)" %
                               (label, os.path.basename(P), sc.pelv, inject))
                 continue
-            if sc.mode == "file":
+            hexdata = data if sc.mode == "filehex" else None
+            if sc.mode.startswith("file"):
                 if sc.sk == "file":
                     with open(sc.stdout_file, "rb") as f:
                         got = f.read()
-                    if not complete(got, pel, True):
+                    if not complete(got, pel, True, hexdata):
                         ctx.violation("C12/input-gone-output-incomplete", "%s: input removed, stdout file holds %d bytes that are "
                                       "not the complete document (%d expected) (inject=%s)" % (label, len(got), len(exp) + 1, inject))
                 elif sc.sk == "pipe":
-                    if proc is not None and not complete(proc.stdout or b"", pel, True):
+                    if proc is not None and not complete(proc.stdout or b"", pel, True, hexdata):
                         ctx.violation("C12/input-gone-output-incomplete", "%s: input removed, %d of %d bytes arrived on the pipe "
                                       "(inject=%s)" % (label, len(proc.stdout or b""), len(exp) + 1, inject))
                 else:
@@ -244,9 +256,9 @@ def check_run(ctx, sc, events, killed, proc, inject):
 def injection_points(events, sc):
     """(syscall, ordinal, kinds) for every syscall of the window: first output-related syscall .. exit"""
     start = None
-    outs = {sc.outpath(P) for P in sc.inputs} if sc.mode != "file" else set()
+    outs = {sc.outpath(P) for P in sc.inputs} if not sc.mode.startswith("file") else set()
     for e in events:
-        if sc.mode == "file":
+        if sc.mode.startswith("file"):
             if e.name in ("write", "writev") and e.fd == 1:
                 start = e.n
                 break
@@ -275,7 +287,7 @@ def run_strace(spec, ctx, rng, u):
         return
     root = harness.scratch_root()
     for k in range(spec["n"]):
-        mode, pelv, sk = SCENARIOS[(spec["scen"] + 12 * k) % len(SCENARIOS)] if k else SCENARIOS[spec["scen"]]
+        mode, pelv, sk = SCENARIOS[(spec["scen"] + 12 * k) % len(SCENARIOS)]
         sc = Scen(os.path.join(root, "s%d" % k), mode, pelv, sk, rng, u)
         os.makedirs(sc.root, exist_ok=True)
         log = os.path.join(sc.root, "trace.log")
@@ -393,6 +405,35 @@ def run_twin(spec, ctx, rng, u):
             log.append(("remove", str(args[0])))
     sys.addaudithook(hook)
 
+    class BufferedFaultyStdout:
+        """block-buffered stdout (the interpreter's default for files/pipes): writes only reach the device on flush,
+        when the 8 KiB buffer fills, and at interpreter exit; device operations fail as planned"""
+        def __init__(self):
+            self.buf, self.device = "", ""
+
+        def _dev(self, what):
+            plan_["op"] += 1
+            log.append(("op", what, plan_["op"]))
+            if plan_["op"] == plan_["fail_at"]:
+                plan_["failed"] = "write"
+                log.append(("op", "write", plan_["op"]))
+                raise OSError(28, "No space left on device (injected device write)")
+            self.device += self.buf
+            self.buf = ""
+
+        def write(self, s):
+            self.buf += s
+            if len(self.buf) > 8192:
+                self._dev("devwrite")
+            return len(s)
+
+        def flush(self):
+            if self.buf:
+                self._dev("devwrite")
+
+        def getvalue(self):
+            return self.device
+
     class FaultyStdout(io.StringIO):
         def write(self, s):
             plan_["op"] += 1
@@ -414,7 +455,12 @@ def run_twin(spec, ctx, rng, u):
         variant = rng.choice(["small", "small", "small", "big", "undecodable", "filtered", "badph"])
         pel, data, exp = make_pel(rng, u, variant)
         d = os.path.join(root, "tw%d" % i)
-        mode = rng.choice(["json", "json-o", "file"])
+        mode = rng.choice(["json", "json-o", "file", "filehex", "file-buffered", "filehex-buffered"])
+        buffered = mode.endswith("-buffered")
+        mode = mode.replace("-buffered", "")
+        hexm = mode == "filehex"
+        if hexm:
+            mode = "file"
         outdir = os.path.join(d, "out") if mode == "json-o" else d
         name = "p_%08X.pel" % pel.eid
         P = os.path.join(d, name)
@@ -431,9 +477,10 @@ def run_twin(spec, ctx, rng, u):
             state.update(out=os.path.abspath(outpath), armed=True,
                          match=lambda f, od=os.path.abspath(outdir), nm=name, e=pel.eid:
                          os.path.dirname(f) == od and dirs.is_json_name(os.path.basename(f), nm, e))
-            argv = ["-f", P, "-c"] if mode == "file" else ["-p", d, "-j", "-c"] + (["-o", outdir] if mode == "json-o" else [])
+            argv = (["-f", P, "-c"] + (["-x"] if hexm else [])) if mode == "file" else \
+                ["-p", d, "-j", "-c"] + (["-o", outdir] if mode == "json-o" else [])
             old = sys.argv, sys.stdout, sys.stderr
-            so = FaultyStdout() if mode == "file" else io.StringIO()
+            so = (BufferedFaultyStdout() if buffered else FaultyStdout()) if mode == "file" else io.StringIO()
             sys.argv, sys.stdout, sys.stderr = ["peltool.py"] + argv, so, io.StringIO()
             rc, tb = 0, None
             try:
@@ -445,6 +492,11 @@ def run_twin(spec, ctx, rng, u):
                     tb = repr(e)
             finally:
                 sys.argv, sys.stdout, sys.stderr = old
+                if buffered and mode == "file":
+                    try:
+                        so.flush()            # what the interpreter does at exit; a failure here is only reported
+                    except OSError:
+                        pass
                 state["armed"] = False
             ctx.count("twin.runs")
             if fail_at:
@@ -453,7 +505,8 @@ def run_twin(spec, ctx, rng, u):
             ctx.case("twin|%s|%s|%d|%d|%d" % (mode, variant, fail_at, i, spec["rseed"]), fail_at > 0 or exp is None)
             removes = [k for k, e in enumerate(log) if e[0] == "remove" and e[1] == P]
             ctx.counters["twin.remove_events"] += len(removes)
-            label = "%s/%s" % (mode, variant)
+            label = "%s%s%s/%s" % (mode, "-hex" if hexm else "", "-buffered" if buffered else "", variant)
+            ctx.see("twin.mode", label.split("/")[0])
             if removes:
                 r = removes[0]
                 if exp is None:
@@ -470,7 +523,7 @@ def run_twin(spec, ctx, rng, u):
                 if exp is None:
                     ctx.violation("C12/removed-although-not-decoded", "twin %s: input is gone although the PEL is %s" % (label, variant))
                 elif mode == "file":
-                    if so.getvalue() != exp + "\n":
+                    if not complete(so.getvalue().encode(), pel, True, data if hexm else None):
                         ctx.violation("C12/input-gone-output-incomplete", "twin %s: input removed, %d of %d characters printed "
                                       "(failed operation %s)" % (label, len(so.getvalue()), len(exp) + 1, fail_at))
                 else:
